@@ -940,7 +940,7 @@ impl Engine for C19 {
     }
     fn budget(&self, tier: Tier) -> (u32, u32) {
         match tier {
-            Tier::Quick => (16, 1200),
+            Tier::Quick => (16, 4000),
             Tier::Thorough => (16, 25000),
         }
     }
